@@ -68,6 +68,18 @@ func ShmAttach(name string, size int, track bool) (*ShmSegment, error) {
 	if err != nil {
 		return nil, err
 	}
+	// The size is whatever the peer advertised. Mapping past the end of the
+	// object succeeds, but touching those pages raises SIGBUS, which no
+	// recover can stop: refuse a size the object does not have.
+	var st unix.Stat_t
+	if err := unix.Fstat(fd, &st); err != nil {
+		_ = unix.Close(fd)
+		return nil, fmt.Errorf("fstat: %w", err)
+	}
+	if int64(size) > st.Size {
+		_ = unix.Close(fd)
+		return nil, fmt.Errorf("shm size %d exceeds the object's size %d", size, st.Size)
+	}
 	data, err := unix.Mmap(fd, 0, size, unix.PROT_READ|unix.PROT_WRITE, unix.MAP_SHARED)
 	_ = unix.Close(fd)
 	if err != nil {
